@@ -76,3 +76,70 @@ def run(s, fn):
         rec["witness"] = {"part": "native-dask", "text": bad[0]}
     return {"sid": s["sid"], "obligations": [rec], "paths": 0, "queries": 0, "solver_time": 0.0, "engine_errors": [], "covers": {"native-dask": 1},
             "counts": {"bounded_standin_evaluations": ncmp}}
+
+
+def reference_check(seed, n_cases):
+    """[bounded] Grid.transform(method=linear|log) on real xarray against a float64 numpy reference, with the dtypes of data and
+    target_data / target varied independently (float32 data with float64 density-like target_data: the interpolation is
+    'against the given target_data', not against a rounded copy of it)"""
+    import warnings
+
+    import numpy as np
+    import xarray as xr
+    import xgcm
+
+    warnings.simplefilter("ignore")
+    rng = np.random.default_rng(400 + seed)
+    bad, ncmp = [], 0
+    t0 = time.time()
+    for case in range(n_cases):
+        nz, nx = int(rng.integers(3, 7)), int(rng.integers(1, 4))
+        ds = xr.Dataset(coords={"z_c": np.arange(nz), "z_o": np.arange(nz + 1), "x_c": np.arange(nx)})
+        g = xgcm.Grid(ds, coords={"Z": {"center": "z_c", "outer": "z_o"}, "X": {"center": "x_c"}}, periodic=False, autoparse_metadata=False)
+        ddt = [np.float32, np.float64][case % 2]
+        phi = (rng.random((nz, nx)) * 10 - 3).astype(ddt)
+        base, scale = [(1027.0, 2e-4), (0.5, 4.0), (1.0e5, 3e-2)][case % 3]
+        th = base + np.sort(rng.random((nz, nx)), axis=0) * scale * nz
+        if len(np.unique(th)) < th.size:
+            continue
+        if case % 4 >= 2:
+            th = th[::-1].copy()
+        lo, hi = th.min(), th.max()
+        lev = np.concatenate([lo + rng.random(4) * (hi - lo), [lo - (hi - lo) * 0.1, hi + (hi - lo) * 0.1]])
+        rng.shuffle(lev)
+        method = ["linear", "log"][(case // 2) % 2]
+        mask = bool(case % 3)
+        da = xr.DataArray(phi, dims=("z_c", "x_c"), name="PHI")
+        td = xr.DataArray(th, dims=("z_c", "x_c"), name="TD")
+        try:
+            out = g.transform(da, "Z", lev, target_data=td, method=method, mask_edges=mask)
+        except Exception as e:  # noqa
+            bad.append(f"transform({method}) raised {type(e).__name__}: {e}")
+            break
+        f = np.log if method == "log" else (lambda v: v)
+        ncmp += 1
+        for x in range(nx):
+            col = th[:, x].astype(np.float64)
+            o = np.argsort(col)
+            want = np.interp(f(lev), f(col[o]), phi[:, x].astype(np.float64)[o])
+            if mask:
+                want = np.where((lev < col.min()) | (lev > col.max()), np.nan, want)
+            got = out.isel(x_c=x).values.astype(np.float64)
+            tol = 2e-5 * max(1.0, float(np.abs(phi).max()))
+            if got.shape != want.shape or not np.allclose(got, want, equal_nan=True, rtol=0, atol=tol):
+                bad.append(f"transform({method}, mask_edges={mask}) with data dtype {np.dtype(ddt).name}, target_data float64 around {base}: column {x} gives {got.tolist()} ; "
+                           f"interpolant against the GIVEN target_data {want.tolist()} (target_data {col.tolist()}, levels {lev.tolist()})")
+                break
+        if bad:
+            break
+    return bad, ncmp, time.time() - t0
+
+
+def run_reference(s, fn):
+    bad, ncmp, dt = reference_check(s.get("seed", 0), s["n"])
+    rec = {"fn": fn, "clause": "result-is-the-interpolant-against-the-given-target_data-for-every-dtype-mix", "status": "failed" if bad else "proved", "time": dt,
+           "detail": bad[0] if bad else f"{ncmp} transforms"}
+    if bad:
+        rec["witness"] = {"part": "native-dask", "text": bad[0]}
+    return {"sid": s["sid"], "obligations": [rec], "paths": 0, "queries": 0, "solver_time": 0.0, "engine_errors": [], "covers": {"native-reference": 1},
+            "counts": {"bounded_standin_evaluations": ncmp}}
